@@ -15,7 +15,7 @@ NAMES = ["B1", "a2", "Zz", "z0", "_x", "10", "9", "Alpha", "beta", "GAMMA", "r00
 ACCT_PATS = ["alice", "bob", "al*", "?ob", "*", "a*e", "alice:*", "nobody", "[ab]*", "al[!x]ce", "a\\*", "[a-c]lice", "[!a-z]ob", "alic[e", "*[e-t]"]
 ADDR_PATS = ["10.0.0.0/8", "10.1.2.0/24", "10.1.2.3", "10.1.*", "10.1.2.*", "10.*", "2001:db8::/32", "2001:db8:1::/48", "2001:db8:1:*", "*", "0.0.0.0/0",
              "10.1.2.2/31", "10.1.2.0/23", "2001:db8::/33", "2001:db8:8000::/33", "2001:db8:1::5/128", "10.1.3.0/24", "11.0.0.0/8", "2001:db8:1:0:0:0:0:4/126",
-             "10.1.2.3/32", "10.1.2.128/25", "2001:db8::/16", "2001:*"]
+             "10.1.2.3/32", "10.1.2.128/25", "2001:db8::/16", "2001:*", "10.1/16", "10.1.2/24", "10.1.2/23", "11.0/8"]
 USER_PATS = ["~*", "joe", "j?e", "*", "~joe", "?*", "root", "[~j]*", "j[a-o]e", "\\~joe", "[!~]*"]
 HOST_PATS = ["*.example.org", "host?.net", "*", "a.example.org", "*.net", "host??.net", "?*", "*.*", "10.*", "*:*", "2001:*", "*example.org", "?.example.org",
              "*/*", "[a-b].example.org*", "HOST*", "*[!.]"]
@@ -66,6 +66,9 @@ def edit_rules(rng, rules):
     real = [r for r in out if "_plain" not in r]
     if not real:
         return gen_rules(rng)
+    if rng.random() < 0.1:
+        # every rule taken out: nobody gets a class any more
+        return [r for r in out if "_plain" in r]
     for _ in range(rng.choice([1, 1, 2, 3])):
         r = rng.choice(real)
         how = rng.random()
